@@ -12,7 +12,7 @@ import z3
 
 from .core import (cur, active, ZXError, BoundExceeded, SInt, SBool, SRatio, mkint, mkbool, s_ite, s_and, s_or,
                    s_bit_length, is_sym, _bv)
-from .seq import SBytes, SStr, SHex, mkbytes, mkstr, CW, to_els, _dec, _rng, _conj, _in_ranges, _el_to_int, _int_to_el
+from .seq import SBytes, SStr, SHex, mkbytes, mkstr, CW, to_els, _dec, _rng, _conj, _disj, _in_ranges, _el_to_int, _int_to_el
 
 PROXY_TYPES = (SInt, SBool, SRatio, SBytes, SStr, SHex)
 
@@ -23,7 +23,7 @@ def _user_str(v):
     mod = getattr(t, '__module__', '')
     if mod.startswith('ssh_audit') or mod.startswith('zxh_'):
         for k in t.__mro__:
-            if k is object:
+            if k is object or not getattr(k, '__module__', '').startswith(('ssh_audit', 'zxh_')):
                 break
             if '__str__' in k.__dict__:
                 return k.__dict__['__str__'](v)
@@ -74,12 +74,53 @@ def z_str(x='', *a):
     u = _user_str(x)
     if u is not None:
         return u
+    if isinstance(x, BaseException) and _deep_sym(x.args):
+        if len(x.args) == 1:
+            return z_str(x.args[0])
+        raise ZXError('str() of an exception with several symbolic args')
     if isinstance(x, (list, tuple, dict)) and _deep_sym(x):
         raise ZXError('str() of a container holding symbolic values')
     return builtins.str(x)
 
 
+def bytes_repr(b):
+    """exact model of repr(bytes) for symbolic bytes (forks per byte class)"""
+    els = b.els
+    has_sq = bool(_wrapb(_disj([_eqb(e, 39) for e in els])))
+    has_dq = bool(_wrapb(_disj([_eqb(e, 34) for e in els]))) if has_sq else False
+    quote = 34 if (has_sq and not has_dq) else 39
+    out = [98, quote]
+    for e in els:
+        if _dec(_eqb(e, quote)) or _dec(_eqb(e, 92)):
+            out += [92, e if isinstance(e, int) else z3.ZeroExt(CW - 8, e)]
+        elif _dec(_eqb(e, 9)):
+            out += [92, 116]
+        elif _dec(_eqb(e, 10)):
+            out += [92, 110]
+        elif _dec(_eqb(e, 13)):
+            out += [92, 114]
+        elif _dec(_rng(e, 32, 126)):
+            out.append(e if isinstance(e, int) else z3.ZeroExt(CW - 8, e))
+        else:
+            z = z3.BitVecVal(e, 8) if isinstance(e, int) else e
+            hi, lo = z3.ZeroExt(CW - 4, z3.Extract(7, 4, z)), z3.ZeroExt(CW - 4, z3.Extract(3, 0, z))
+            hx = lambda n: z3.If(z3.ULT(n, 10), n + 48, n + 87)
+            out += [92, 120, hx(hi), hx(lo)]
+    out.append(quote)
+    return mkstr(out)
+
+
+def _eqb(e, v):
+    return (e == v) if isinstance(e, int) else (e == v)
+
+
+def _wrapb(b):
+    return b if isinstance(b, bool) else mkbool(b)
+
+
 def z_repr(x):
+    if isinstance(x, SBytes):
+        return bytes_repr(x)
     if isinstance(x, PROXY_TYPES):
         raise ZXError('repr() of symbolic value')
     if isinstance(x, (list, tuple, dict)) and _deep_sym(x):
